@@ -140,6 +140,8 @@ def run(ch, config, res):
         login = cred(wl, "login")
         password = cred(wl, "password")
         authz = cred(wl, "authz", allow_empty=True) if wl.flag("has_authz", 1, 2) else ""
+        if authz and wl.flag("authz_is_login", 1, 4):
+            authz = login          # an authorisation id equal to the login is still an authorisation id
         rsz = [4096, 1, 7][wl.weighted("read_size", [6, 1, 1])]
     # in some runs the handshake goes through STARTTLS and the list that counts is the one announced after it
     with ch.scope("tls"):
